@@ -166,10 +166,12 @@ CASES = [
          vars={"a0": ANY, "a1": ANY, "a2": ANY, "a3": ANY, "T": TR, "Tref": TR, "lT": ANY},
          plain="(TPoly([a0, a1, a2, a3])({'temperature': T}), RTPoly([a0, a1, a2])({'temperature': T}), ShiftedTPoly([Tref, a0, a1, a2])({'temperature': T}), "
                "Log10TPoly([a0, a1, a2])({'log10_temperature': lT}), ShiftedRTPoly([Tref, a0, a1, a2])({'temperature': T}), "
-               "MassAction(TPoly([a0, a1]))({'temperature': T, 'A': a2}, reaction=rxn1), TPoly([a0])({'temperature': T}))",
+               "MassAction(TPoly([a0, a1]))({'temperature': T, 'A': a2}, reaction=rxn1), TPoly([a0])({'temperature': T}), "
+               "TPoly([a0, 0, a2])({'temperature': T}), RTPoly([a0, 0.0, a2])({'temperature': T}), ShiftedTPoly([Tref, a0, 0, a2])({'temperature': T}), "
+               "TPoly([0, a1, 0, a3])({'temperature': T}))",
          assume=["T - Tref >= 1"],
          formula="(a0 + a1*T + a2*T**2 + a3*T**3, a0 + a1/T + a2/T**2, a0 + a1*(T - Tref) + a2*(T - Tref)**2, a0 + a1*lT + a2*lT**2, "
-                 "a0 + a1/(T - Tref) + a2/(T - Tref)**2, (a0 + a1*T)*a2, a0)"),
+                 "a0 + a1/(T - Tref) + a2/(T - Tref)**2, (a0 + a1*T)*a2, a0, a0 + a2*T**2, a0 + a2/T**2, a0 + a2*(T - Tref)**2, a1*T + a3*T**3)"),
 ]
 
 
@@ -318,7 +320,7 @@ sys.exit(0 if ok else 1)
 '''
 
 
-def task_trees(tree_list):
+def task_trees(tree_list, zero_x=False):
     from chempy.util._expr import Constant, Symbol, Expr
     from chempy.kinetics._rates import TPoly
 
@@ -334,9 +336,10 @@ def task_trees(tree_list):
         def fn():
             exprs = {"E1": Constant([c]), "E2": Symbol(unique_keys=("x",)), "E3": TPoly([p0, p1])}
             obj = build(t, exprs)
-            variables = {"x": x, "temperature": T}
+            xv = 0 if zero_x else x   # boundary variant: the named symbol is bound to exactly zero (0**0, x*anything, anything**x)
+            variables = {"x": xv, "temperature": T}
+            exp = build(t, {"E1": c, "E2": xv, "E3": p0 + p1 * T})   # python's own arithmetic on the leaf values (may raise ZeroDivisionError)
             got = obj(variables, backend=ZBackend()) if isinstance(obj, Expr) else obj
-            exp = build(t, {"E1": c, "E2": x, "E3": p0 + p1 * T})
             return got, exp
 
         def goal(p, twin=False):
@@ -360,7 +363,9 @@ def task_trees(tree_list):
         for p, m, g in o.failed[:1]:
             vals = {n: (model_value(m, z3.Real(n)) if m is not None else Fraction(3, 2)) for n in ("c", "x", "p0", "p1", "T")}
             vals = {k: (v if v != 0 else Fraction(3, 2)) for k, v in vals.items()}
-            res["violations"].append(dict(key="expr-tree:%s" % show(t), soft=True,
+            if zero_x:
+                vals["x"] = 0
+            res["violations"].append(dict(key="expr-tree:%s%s" % (show(t), ":x=0" if zero_x else ""), soft=True,
                                           desc="tree %s -> %s" % (show(t), "raised %r" % (p.value,) if p.kind == "exc" else "value differs"),
                                           replay_src=REPLAY_TREE % dict(tree=t, vals=pyrepr(vals))))
     res["twin"] = "violated" if twin_hit else "passed"
@@ -529,4 +534,9 @@ def tasks(tier, seed):
         ch = tl[i::n]
         if ch:
             ts.append(dict(id="C16.expr_trees.%02d" % i, fn="task_trees", kwargs=dict(tree_list=ch), timeout=1500))
+    zt = [t for t in tl if "E2" in repr(t)]
+    for i in range(4):
+        ch = zt[i::4][: (120 if tier == "quick" else 100000)]
+        if ch:
+            ts.append(dict(id="C16.expr_trees.zero.%02d" % i, fn="task_trees", kwargs=dict(tree_list=ch, zero_x=True), timeout=1500))
     return ts
